@@ -793,3 +793,328 @@ Proof. apply resolution_full, index_consistent. Qed.
 Lemma precedence_unique ix dhcp id a r1 r2 :
   Inv ix -> resolves ix dhcp id a r1 -> resolves ix dhcp id a r2 -> r1 = r2.
 Proof. intros H. exact (resolves_functional ix dhcp id a H r1 r2). Qed.
+
+(** * CIDR identifiers spelled with host bits
+
+    netip.ParsePrefix and Persistent.SetIDs keep the host bits of
+    "192.168.1.1/24"; the index keys its subnet map by the EXACT prefix (the
+    address as spelled, the bit count) and orders it by [subnet_compare] on the
+    unmasked address, while the containment test masks.  Nothing above assumes
+    canonical prefixes: [Inv], [resolution], [precedence] speak of exact
+    (address, bits) pairs.  This section says what that means for several
+    spellings of one network. *)
+
+(** netip.Prefix.Masked on bytes: the host bits cleared. *)
+Fixpoint mask_bits (n : N) (l : bytes) : bytes :=
+  match l with
+  | [] => []
+  | b :: l' =>
+      if n =? 0 then 0 :: mask_bits 0 l' else
+      if n <? 8 then (b / 2 ^ (8 - n)) * 2 ^ (8 - n) :: mask_bits 0 l' else b :: mask_bits (n - 8) l'
+  end.
+Definition masked (p : prefix) : prefix := (mask_bits (snd p) (fst p), snd p).
+
+(** Two prefixes denote the same network: equal length, equal family, equal
+    network bits. *)
+Definition same_network (p q : prefix) : Prop :=
+  snd p = snd q /\ length (fst p) = length (fst q) /\
+  take_bits (snd p) (fst p) = take_bits (snd p) (fst q).
+
+Lemma mask_bits_length l : forall n, length (mask_bits n l) = length l.
+Proof.
+  induction l as [|b l IH]; intros n; cbn [mask_bits]; [reflexivity|].
+  destruct (n =? 0); [cbn; rewrite IH; reflexivity|].
+  destruct (n <? 8); cbn; rewrite IH; reflexivity.
+Qed.
+
+Lemma take_bits_mask l : forall n, take_bits n (mask_bits n l) = take_bits n l.
+Proof.
+  induction l as [|b l IH]; intros n; cbn [mask_bits take_bits]; [reflexivity|].
+  destruct (n =? 0) eqn:E0; [cbn [take_bits]; rewrite E0; reflexivity|].
+  destruct (n <? 8) eqn:E8; cbn [take_bits]; rewrite E0, E8.
+  - f_equal. apply N.div_mul. apply N.pow_nonzero. discriminate.
+  - f_equal. apply IH.
+Qed.
+
+Lemma masked_same_network p : same_network (masked p) p.
+Proof.
+  destruct p as [a n]. unfold same_network, masked; cbn [fst snd].
+  split; [reflexivity|]. split; [apply mask_bits_length|apply take_bits_mask].
+Qed.
+
+(** The containment test does not see the host bits of the prefix. *)
+Lemma contains_same_network p q ip : same_network p q -> contains p ip = contains q ip.
+Proof.
+  destruct p as [a n], q as [b m]. unfold same_network, contains; cbn [fst snd].
+  intros (<- & Hl & Ht). rewrite Hl, Ht. reflexivity.
+Qed.
+
+Lemma contains_masked p ip : contains (masked p) ip = contains p ip.
+Proof. apply contains_same_network, masked_same_network. Qed.
+
+(** ... but the order and the clash test do: distinct spellings are distinct
+    keys, strictly ordered. *)
+Lemma subnet_compare_spellings p q : p <> q -> subnet_compare p q <> Eq.
+Proof. intros Hne E. apply Hne. apply subnet_compare_eq; assumption. Qed.
+
+(** ** A stored CIDR containing the address always answers
+
+    In every state satisfying the invariant (hence after any history, whatever
+    the host bits of the stored prefixes): if some client lists a prefix
+    containing the address and nobody owns the address itself, the lookup by
+    address answers, with the owner of the containing prefix that is FIRST in
+    (bits descending, unmasked address ascending) order; that prefix is at
+    least as long as any stored containing one.  Among equally long containing
+    prefixes (several spellings of one network) "the longest" is not unique;
+    the first in [subnet_compare] order is. *)
+Lemma cidr_resolves ix a p u :
+  Inv ix -> owner_of ix c_subnets p u -> contains p (fst a) = true -> zget a (ip_to ix) = None ->
+  exists p' u', find_by_ip ix a = Some u' /\ owner_of ix c_subnets p' u' /\
+    contains p' (fst a) = true /\ snd p <= snd p' /\
+    (forall q v, owner_of ix c_subnets q v -> contains q (fst a) = true ->
+       snd q <= snd p' /\ (q = p' \/ subnet_compare p' q = Lt)).
+Proof.
+  intros HI Ho Hc Hz.
+  destruct (resolution ix HI) as (_ & _ & _ & _ & Rs).
+  assert (Hin : In (p, u) (subnet_to ix)).
+  { apply Rs in Ho. apply al_get_in in Ho; [assumption|apply prefix_eqb_spec]. }
+  unfold find_by_ip. rewrite Hz.
+  destruct (List.find (fun pu => contains (fst pu) (fst a)) (subnet_to ix)) as [[p' u']|] eqn:Ef.
+  - destruct (find_sorted_min _ _ _ _ (inv_sorted ix HI) Ef) as (Hin' & Hc' & Hmin). cbn [fst] in Hc'.
+    assert (Hall : forall q v, owner_of ix c_subnets q v -> contains q (fst a) = true ->
+              snd q <= snd p' /\ (q = p' \/ subnet_compare p' q = Lt)).
+    { intros q v Hq Hcq. apply Rs in Hq. apply al_get_in in Hq; [|apply prefix_eqb_spec].
+      destruct (Hmin (q, v) Hq Hcq) as [E|Hlt].
+      - inversion E; subst. split; [lia|auto].
+      - unfold sm_lt in Hlt; cbn [fst] in Hlt. split; [apply subnet_compare_lt_bits; assumption|auto]. }
+    exists p', u'. split; [reflexivity|]. split.
+    + apply Rs. apply sm_sorted_in_get; [apply (inv_sorted ix HI)|assumption].
+    + split; [assumption|]. split; [apply (Hall p u Ho Hc)|exact Hall].
+  - exfalso. apply (find_none _ _ Ef) in Hin. cbn [fst] in Hin. congruence.
+Qed.
+
+(** ** Operations on one client leave the others alone *)
+Lemma step_keeps_other_clients cfg ix o ix' e u c :
+  Inv ix -> step cfg ix o = (ix', e) -> deref ix u = Some c ->
+  match o with
+  | OAdd _ => True
+  | OUpdate n _ | ORemove n => find_by_name ix n <> Some u
+  end ->
+  deref ix' u = Some c.
+Proof.
+  intros HI H Hd Hn. destruct o as [c0|n c0|n]; cbn [step] in H.
+  - unfold add in H. destruct (validate cfg c0); try (inversion H; subst; assumption). cbv zeta in H.
+    destruct (deref ix (c_uid (normalize c0))) eqn:D; [inversion H; subst; assumption|].
+    destruct (clashes (normalize c0) ix); try (inversion H; subst; assumption).
+    inversion H; subst. rewrite deref_add_ne; [assumption|]. intros ->. congruence.
+  - unfold update in H. destruct (validate cfg c0); try (inversion H; subst; assumption). cbv zeta in H.
+    unfold find_by_name in Hn.
+    destruct (bget n (name_to ix)) as [u0|] eqn:B; [|inversion H; subst; assumption].
+    destruct (deref ix u0) as [stored|] eqn:D; [|inversion H; subst; assumption].
+    assert (Eu : c_uid stored = u0) by (eapply inv_uid; eassumption).
+    assert (Hne : u <> u0) by congruence.
+    destruct (clashes (set_uid (c_uid stored) (normalize c0)) ix); try (inversion H; subst; assumption).
+    inversion H; subst ix' e. rewrite deref_add_ne by (cbn [set_uid c_uid]; congruence).
+    rewrite deref_remove_ne by congruence. assumption.
+  - unfold remove_by_name in H. unfold find_by_name in Hn.
+    destruct (bget n (name_to ix)) as [u0|] eqn:B; [|inversion H; subst; assumption].
+    destruct (deref ix u0) as [stored|] eqn:D; [|inversion H; subst; assumption].
+    assert (Eu : c_uid stored = u0) by (eapply inv_uid; eassumption).
+    assert (Hne : u <> u0) by congruence.
+    inversion H; subst ix' e. rewrite deref_remove_ne by congruence. assumption.
+Qed.
+
+Lemma step_keeps_other_owners {K} (keys : client -> list K) cfg ix o ix' e k u :
+  Inv ix -> step cfg ix o = (ix', e) -> owner_of ix keys k u ->
+  match o with
+  | OAdd _ => True
+  | OUpdate n _ | ORemove n => find_by_name ix n <> Some u
+  end ->
+  owner_of ix' keys k u.
+Proof.
+  intros HI H (c & Hd & Hk) Hn. exists c. split; [|assumption].
+  eapply step_keeps_other_clients; eassumption.
+Qed.
+
+(** ** Removing a client does not disturb the answers given for the others *)
+Lemma find_filter_keep {A} (f g : A -> bool) l x :
+  List.find f l = Some x -> g x = true -> List.find f (filter g l) = Some x.
+Proof.
+  induction l as [|a l IH]; cbn; [discriminate|].
+  destruct (f a) eqn:Ef.
+  - intros E Hg; inversion E; subst a. rewrite Hg. cbn. rewrite Ef. reflexivity.
+  - intros E Hg. destruct (g a); [cbn; rewrite Ef|]; auto.
+Qed.
+
+Lemma find_del_keys_keep (f : prefix * uid -> bool) ks : forall m p u,
+  List.find f m = Some (p, u) -> ~ In p ks -> List.find f (del_keys sm_del ks m) = Some (p, u).
+Proof.
+  unfold del_keys. induction ks as [|k ks IH]; cbn; intros m p u Hf Hn; [assumption|].
+  apply IH; [|tauto]. unfold sm_del, al_del. apply find_filter_keep; [assumption|].
+  cbn [fst]. rewrite prefix_eqb_ne; [reflexivity|]. intros ->. apply Hn; auto.
+Qed.
+
+Lemma remove_keeps_others ix c u0 a u :
+  Inv ix -> deref ix u0 = Some c -> find_by_ip ix a = Some u -> u <> u0 ->
+  find_by_ip (index_remove c ix) a = Some u.
+Proof.
+  intros HI Hd Hf Hne. unfold find_by_ip in *. cbn [index_remove ip_to subnet_to].
+  destruct (zget a (ip_to ix)) as [u1|] eqn:Ez.
+  - inversion Hf; subst u1.
+    rewrite (get_del_keys_out addr _ zget zdel zget_del_ne); [rewrite Ez; reflexivity|].
+    intros Hin. assert (E : zget a (ip_to ix) = Some u0) by (apply (inv_ip ix HI); eauto). congruence.
+  - destruct (zget a (del_keys zdel (c_ips c) (ip_to ix))) as [u1|] eqn:Ez'.
+    { apply (get_del_keys_sub addr _ zget zdel addr_dec zget_del_eq zget_del_ne) in Ez'. congruence. }
+    destruct (List.find (fun pu => contains (fst pu) (fst a)) (subnet_to ix)) as [[p u']|] eqn:Ef; [|discriminate].
+    inversion Hf; subst u'.
+    rewrite (find_del_keys_keep _ (c_subnets c) _ p u Ef); [reflexivity|].
+    intros Hin.
+    assert (E1 : sm_get p (subnet_to ix) = Some u0) by (apply (inv_subnet ix HI); eauto).
+    assert (E2 : sm_get p (subnet_to ix) = Some u).
+    { apply sm_sorted_in_get; [apply (inv_sorted ix HI)|]. apply (find_some _ _ Ef). }
+    congruence.
+Qed.
+
+(** ** The statement for spellings: what a change of the comparator to masked
+    addresses breaks
+
+    After ANY history and then a remove / update of the client called [n] (any
+    outcome), a prefix [p] (ANY host bits) listed by another client is still
+    owned by that client, and every address inside it which nobody owns
+    exactly still resolves: to the owner of the first containing prefix in
+    subnet order, at least as long as [p]. *)
+Definition op_on_client (o : op) (n : bytes) : Prop :=
+  match o with OAdd _ => False | OUpdate m _ | ORemove m => m = n end.
+
+Lemma noncanonical_prefixes cfg ops o n p u a :
+  let ix := run cfg ops empty_index in
+  let ix' := fst (step cfg ix o) in
+  op_on_client o n -> owner_of ix c_subnets p u -> find_by_name ix n <> Some u ->
+  contains p (fst a) = true -> zget a (ip_to ix') = None ->
+  owner_of ix' c_subnets p u /\
+  exists p' u', find_by_ip ix' a = Some u' /\ owner_of ix' c_subnets p' u' /\
+    contains p' (fst a) = true /\ snd p <= snd p' /\
+    (forall q v, owner_of ix' c_subnets q v -> contains q (fst a) = true ->
+       snd q <= snd p' /\ (q = p' \/ subnet_compare p' q = Lt)).
+Proof.
+  intros ix ix' Ht Ho Hn Hc Hz.
+  assert (HI : Inv ix) by apply index_consistent.
+  assert (HI' : Inv ix') by (apply Inv_step; assumption).
+  assert (Ho' : owner_of ix' c_subnets p u).
+  { eapply (step_keeps_other_owners c_subnets cfg ix o ix' (snd (step cfg ix o))); try eassumption.
+    - unfold ix'. destruct (step cfg ix o); reflexivity.
+    - destruct o; cbn in Ht; [tauto|subst; assumption|subst; assumption]. }
+  split; [assumption|]. eapply cidr_resolves; eassumption.
+Qed.
+
+(** ** The scenario itself, on the model: 192.168.1.1/24 and 192.168.1.0/24 *)
+Definition nc_client (u : uid) (name : bytes) (subnets : list prefix) : client :=
+  ex_client u name [] [] subnets [] false false.
+Definition p_1_1 : prefix := ([192;168;1;1], 24).
+Definition p_1_0 : prefix := ([192;168;1;0], 24).
+Definition p_1_200 : prefix := ([192;168;1;200], 24).
+Definition nc_ops : list op :=
+  [ OAdd (nc_client 1 [97] [p_1_1]);        (* a: 192.168.1.1/24 *)
+    OAdd (nc_client 2 [98] [p_1_0]) ].      (* b: 192.168.1.0/24, accepted *)
+Definition nc_ix : index := run ex_cfg nc_ops empty_index.
+Definition a77 : addr := v4 192 168 1 77.
+
+Lemma example_noncanonical :
+  Inv nc_ix /\ same_network p_1_1 p_1_0 /\ p_1_1 <> p_1_0 /\ masked p_1_1 = p_1_0 /\
+  owner_of nc_ix c_subnets p_1_1 1 /\ owner_of nc_ix c_subnets p_1_0 2 /\
+  map fst (subnet_to nc_ix) = [p_1_0; p_1_1] /\
+  (* the same spelling again is a clash, a third spelling is not *)
+  snd (step ex_cfg nc_ix (OAdd (nc_client 3 [99] [p_1_1]))) = ESubnet /\
+  snd (step ex_cfg nc_ix (OAdd (nc_client 3 [99] [p_1_200]))) = EOk /\
+  (* who answers for 192.168.1.77: b (1.0 sorts before 1.1); after b is removed
+     or respelled away: a; after a is removed: b *)
+  find_by_ip nc_ix a77 = Some 2 /\
+  find_by_ip (fst (step ex_cfg nc_ix (ORemove [98]))) a77 = Some 1 /\
+  find_by_ip (fst (step ex_cfg nc_ix (ORemove [97]))) a77 = Some 2 /\
+  find_by_ip (fst (step ex_cfg nc_ix (OUpdate [98] (nc_client 9 [98] [([10;0;0;0], 8)])))) a77 = Some 1 /\
+  find_by_ip (fst (step ex_cfg nc_ix (OUpdate [98] (nc_client 9 [98] [p_1_200])))) a77 = Some 1 /\
+  find_by_ip (fst (step ex_cfg nc_ix (OUpdate [97] (nc_client 9 [100] [p_1_1])))) a77 = Some 2 /\
+  zget a77 (ip_to (fst (step ex_cfg nc_ix (ORemove [98])))) = None.
+Proof.
+  split; [apply index_consistent|].
+  split; [repeat split|].
+  split; [discriminate|].
+  vm_compute. repeat split; try reflexivity; eexists; (split; [reflexivity|cbn; auto]).
+Qed.
+
+(** ** The other reading of "identifier"
+
+    If a CIDR identifier is read as the NETWORK it denotes, "no two clients
+    share an identifier" would say that two stored clients never hold prefixes
+    of the same network.  The registry (exact-prefix clash test) does not
+    guarantee that: *)
+Definition networks_disjoint_statement : Prop :=
+  forall cfg ops p1 p2 u1 u2,
+    let ix := run cfg ops empty_index in
+    owner_of ix c_subnets p1 u1 -> owner_of ix c_subnets p2 u2 -> same_network p1 p2 -> u1 = u2.
+
+Lemma networks_disjoint_refuted : ~ networks_disjoint_statement.
+Proof.
+  intros H.
+  assert (E : (1 : uid) = 2); [|discriminate].
+  apply (H ex_cfg nc_ops p_1_1 p_1_0 1 2).
+  - vm_compute. eexists; split; [reflexivity|cbn; auto].
+  - vm_compute. eexists; split; [reflexivity|cbn; auto].
+  - repeat split.
+Qed.
+
+(** ... while for canonical prefixes the two readings coincide: equal networks
+    spelled canonically are equal keys, so the exact test suffices. *)
+Definition canonical (p : prefix) : Prop := masked p = p.
+
+Lemma take_bits_cons n b l :
+  take_bits n (b :: l) =
+  if n =? 0 then [] else if n <? 8 then [b / 2 ^ (8 - n)] else b :: take_bits (n - 8) l.
+Proof. reflexivity. Qed.
+Lemma mask_bits_cons n b l :
+  mask_bits n (b :: l) =
+  if n =? 0 then 0 :: mask_bits 0 l else
+  if n <? 8 then (b / 2 ^ (8 - n)) * 2 ^ (8 - n) :: mask_bits 0 l else b :: mask_bits (n - 8) l.
+Proof. reflexivity. Qed.
+
+Lemma take_bits_mask_inj l1 : forall l2 n,
+  length l1 = length l2 -> take_bits n l1 = take_bits n l2 -> mask_bits n l1 = mask_bits n l2.
+Proof.
+  induction l1 as [|b1 l1 IH]; destruct l2 as [|b2 l2]; intros n Hl Ht; cbn in Hl; try discriminate; [reflexivity|].
+  rewrite !take_bits_cons in Ht. rewrite !mask_bits_cons.
+  assert (Hz : forall k1 k2 : bytes, length k1 = length k2 -> mask_bits 0 k1 = mask_bits 0 k2).
+  { clear. induction k1 as [|x k1 IHk]; destruct k2 as [|y k2]; cbn; intros Hl; try discriminate; [reflexivity|].
+    f_equal. apply IHk. congruence. }
+  destruct (n =? 0) eqn:E0.
+  - f_equal. apply Hz. congruence.
+  - destruct (n <? 8) eqn:E8.
+    + assert (Hq : b1 / 2 ^ (8 - n) = b2 / 2 ^ (8 - n)) by congruence.
+      rewrite Hq. f_equal. apply Hz. congruence.
+    + assert (Hb : b1 = b2) by congruence.
+      assert (Hr : take_bits (n - 8) l1 = take_bits (n - 8) l2) by congruence.
+      subst b2. f_equal. apply IH; congruence.
+Qed.
+
+Lemma canonical_same_network_eq p q : canonical p -> canonical q -> same_network p q -> p = q.
+Proof.
+  destruct p as [a n], q as [b m]. unfold canonical, masked, same_network; cbn [fst snd].
+  intros Hp Hq (<- & Hl & Ht).
+  inversion Hp as [Ha]. inversion Hq as [Hb]. rewrite Ha, Hb.
+  f_equal. rewrite <- Ha, <- Hb. apply take_bits_mask_inj; assumption.
+Qed.
+
+Lemma canonical_networks_disjoint ix p1 p2 u1 u2 :
+  Inv ix -> canonical p1 -> canonical p2 ->
+  owner_of ix c_subnets p1 u1 -> owner_of ix c_subnets p2 u2 -> same_network p1 p2 -> u1 = u2.
+Proof.
+  intros HI C1 C2 O1 O2 Hs. rewrite (canonical_same_network_eq p1 p2 C1 C2 Hs) in O1.
+  destruct (owners_unique ix HI) as (_ & _ & _ & _ & Us). eapply Us; eassumption.
+Qed.
+
+Lemma example_canonical :
+  canonical p_1_0 /\ ~ canonical p_1_1 /\
+  owner_of (run ex_cfg [OAdd (nc_client 1 [97] [p_1_0])] empty_index) c_subnets p_1_0 1.
+Proof.
+  split; [reflexivity|]. split; [discriminate|].
+  vm_compute. eexists; split; [reflexivity|cbn; auto].
+Qed.
